@@ -16,7 +16,8 @@ from . import c20curve
 
 LEVEL = "model_checking"
 RULE = ("E4: (a) reader-writer lock - the real RWLock with threading.Lock replaced by a cooperative lock; stateful depth-first search over ALL "
-        "interleavings at lock-operation granularity for 2R+1W, 1R+2W, 2R+2W (thorough: 3R+2W and two rounds per thread); in every state: a "
+        "interleavings at lock-operation granularity for 2R+1W, 1R+2W, 2R+2W (thorough: 3R+2W and two rounds per thread), and again for 2R+1W and 1R+2W "
+        "(thorough: 2R+2W) with an additional scheduling point right after every lock operation (exposes unprotected code that follows a release); in every state: a "
         "writer inside => nobody else inside; no deadlock state; some state has two readers inside. The complete state graph of a TLA+ model of "
         "the same algorithm is produced by TLC (-dump dot,actionlabels) and walked in lock-step with the implementation graph: every model edge "
         "is replayed on the code (enabled threads, who is inside, and the state bijection must agree). (b) shared curve objects - for every ordered "
@@ -110,8 +111,8 @@ def rw_check(run, cx, state):
     return v
 
 
-def explore_rw(config, rounds=1):
-    res = explore_stateful(lambda: rw_bodies(config, rounds), rw_state, rw_check)
+def explore_rw(config, rounds=1, fine=False):
+    res = explore_stateful(lambda: rw_bodies(config, rounds), rw_state, rw_check, fine=fine)
     res["two_readers_seen"] = any(list(s[2]).count("R") >= 2 for s in res["visited"])
     res["reader_and_writer_seen"] = any("W" in s[2] and len([x for x in s[2] if x]) > 1 for s in res["visited"])
     return res
@@ -208,14 +209,14 @@ def lockstep(res, model):
 
 def rw_one(args):
     """Explore one configuration (runs in a forked child): returns a picklable summary."""
-    config, rounds = args
-    res = explore_rw(config, rounds)
-    name = "%s x%d" % (config, rounds)
+    config, rounds, fine = args
+    res = explore_rw(config, rounds, fine)
+    name = "%s x%d%s" % (config, rounds, " fine" if fine else "")
     d = {"config": name, "states": res["states"], "transitions": res["transitions"], "executions": res["executions"],
          "deadlocks": len(res["deadlocks"]), "final_states": res["final_states"], "two_readers_inside_reachable": res["two_readers_seen"]}
     notes = []
     replayed = 0
-    if rounds == 1 and shutil.which("tlc"):
+    if rounds == 1 and not fine and shutil.which("tlc"):
         model, err = tlc_graph(config)
         if model is None:
             notes.append("TLC cross-check unavailable for %s: %s" % (name, err))
@@ -227,18 +228,20 @@ def rw_one(args):
                     name, res["states"], model[3], "; ".join(problems[:3]) or "state counts differ"))
     viols = []
     for msg, path in res["violations"]:
-        viols.append(("rwlock|%s" % msg.split(":")[0], "%s: %s after schedule %r" % (name, msg, path), ("rw", config, rounds) + tuple(path)))
+        viols.append(("rwlock|%s" % msg.split(":")[0], "%s: %s after schedule %r" % (name, msg, path), ("rw", config, rounds, fine) + tuple(path)))
     if not res["two_readers_seen"] and config.count("R") >= 2:
-        viols.append(("rwlock|readers-exclusive", "%s: no reachable state has two readers inside" % name, ("rw", config, rounds)))
+        viols.append(("rwlock|readers-exclusive", "%s: no reachable state has two readers inside" % name, ("rw", config, rounds, fine)))
     hashes = [case_hash((name, st)) for st in res["visited"]]
     some = [p for p in res["visited"].values() if len(p) > 8][:1]
     return d, notes, replayed, viols, hashes, (some[0] if some else ())
 
 
 def rw_configs(ctx):
-    configs = [("RRWW", 1), ("RRW", 1), ("RWW", 1)]
+    # (configuration, rounds per thread, fine): fine = additional scheduling point right AFTER every lock operation, so that
+    # code following a release (e.g. an unprotected read of a counter) can interleave with complete operations of others
+    configs = [("RRWW", 1, False), ("RRW", 1, True), ("RWW", 1, True), ("RRW", 1, False), ("RWW", 1, False)]
     if not ctx.quick:
-        configs = [("RRRWW", 1), ("RRWW", 2)] + configs + [("RW", 3), ("RRR", 1), ("WWW", 1)]
+        configs = [("RRWW", 1, True), ("RRRWW", 1, False), ("RRWW", 2, False)] + configs + [("RW", 3, True), ("RRR", 1, True), ("WWW", 1, True)]
     return configs
 
 
@@ -268,10 +271,10 @@ def rw_collect(ctx, agg, results):
 
 def run_case(ctx, case):
     if case[0] == "rw":
-        config, rounds = case[1], case[2]
-        path = list(case[3:])
+        config, rounds, fine = case[1], case[2], bool(case[3])
+        path = list(case[4:])
         bodies, cx = rw_bodies(config, rounds)
-        run = Run(bodies)
+        run = Run(bodies, fine)
         run.start()
         o = Outcome("replay", True)
         for t in path:
@@ -284,6 +287,9 @@ def run_case(ctx, case):
         if not run.enabled() and not run.all_done():
             o.viol("rwlock|deadlock", "deadlock after the recorded schedule")
         run.abort()
+        for w in run.workers:
+            if w.error is not None:
+                o.viol("rwlock|worker raised %s" % type(w.error).__name__, "thread %d raised %r" % (w.idx, w.error))
         return o
     return c20curve.run_case(ctx, case)
 
@@ -292,7 +298,7 @@ def main(ctx):
     import multiprocessing
     agg = Agg()
     configs = rw_configs(ctx)
-    pool = multiprocessing.get_context("fork").Pool(min(len(configs), 4))
+    pool = multiprocessing.get_context("fork").Pool(min(len(configs), 6))
     try:
         pending = pool.map_async(rw_one, configs, chunksize=1)
         mod = sys.modules[__name__]
